@@ -101,8 +101,10 @@ structure Quirks where
   argZero : Bool
   deriving DecidableEq, Repr
 
-/-- the unchanged tree -/
+/-- the tree as it was found (every recorded deviation present) -/
 def Quirks.today : Quirks := ⟨true, true, true, true⟩
+/-- the tree as it is now: F-C17-1 (fix 8b5fe57) and F-C17-3 (optional spellings) repaired, F-C17-2 open -/
+def Quirks.current : Quirks := ⟨false, true, false, false⟩
 /-- every recorded deviation repaired -/
 def Quirks.none : Quirks := ⟨false, false, false, false⟩
 
